@@ -15,10 +15,16 @@ Definition json_char (c : N) : str :=
   else if (c <? 65536)%N then u_escape c
   else let v := (c - 65536)%N in u_escape (55296 + v / 1024) ++ u_escape (56320 + v mod 1024).
 Definition json_str (s : str) : str := 34%N :: flat_map json_char s ++ [34%N].
+(* a float is carried as its repr; json.dumps writes NaN, Infinity, -Infinity for nan, inf, -inf and the repr otherwise *)
+Definition float_json (t : str) : str :=
+  if str_eqb t ([110;97;110]%N) then ([78;97;78]%N)
+  else if str_eqb t ([105;110;102]%N) then ([73;110;102;105;110;105;116;121]%N)
+  else if str_eqb t ([45;105;110;102]%N) then ([45;73;110;102;105;110;105;116;121]%N)
+  else t.
 Definition json_scalar (v : pyval) : str :=
   match v with
   | VNone => ([110;117;108;108]%N) | VBool true => ([116;114;117;101]%N) | VBool false => ([102;97;108;115;101]%N)
-  | VInt z => dec_text z | VStr s => json_str s | VFloat t => t | VList _ => []
+  | VInt z => dec_text z | VStr s => json_str s | VFloat t => float_json t | VList _ => []
   end.
 (* lists are joined with ", " *)
 Fixpoint json_list (l : list pyval) : str :=
@@ -262,26 +268,29 @@ Definition enc_elem (x : nat * elem) : sexp :=
   end.
 Definition mk_formatter (ansi : bool) (set : list cstyle) : res formatter :=
   new_formatter (if ansi then FAnsi true else FPlain) set.
-Definition page_out (W : Z) (ansi : bool) (set : list cstyle) (page : styles -> layout) : sexp :=
+(* extra: what else is said about the page (run_C13: nothing; run_C13G in Model/HelpRegion.v: whether the page is in the region
+   where the theorems of Props/C13.v promise that it renders and fits) *)
+Definition page_out_x (extra : styles -> Z -> layout -> list sexp) (W : Z) (ansi : bool) (set : list cstyle) (page : styles -> layout) : sexp :=
   match mk_formatter ansi set with
-  | Ok f => let l := page (f_styles f) in L [sList enc_elem l; sRes sStr (render_page W f l)]
+  | Ok f => let l := page (f_styles f) in L ([sList enc_elem l; sRes sStr (render_page W f l)] ++ extra (f_styles f) W l)
   | Err k => sErr k
   end.
+Definition page_out := page_out_x (fun _ _ _ => []).
 
 From Clikit Require Import Model.OutputM.
-Definition run_C13 (s : sexp) : sexp :=
+Definition run_C13_x (extra : styles -> Z -> layout -> list sexp) (s : sexp) : sexp :=
   match s with
   | L [A 0%Z; A W; ansi; set; app_name; chain; aliases; help; subs] =>
     match dB ansi, dList dec_cstyle set, dOpt dStr app_name, dList dec_level chain, dList dStr aliases, dOpt dStr help, dList dec_sub subs with
     | Some ansi, Some set, Some app_name, Some chain, Some aliases, Some help, Some subs =>
-      page_out W ansi set (fun sty => command_page sty app_name chain aliases help subs)
+      page_out_x extra W ansi set (fun sty => command_page sty app_name chain aliases help subs)
     | _, _, _, _, _, _, _ => sBad
     end
   | L [A 1%Z; A W; ansi; set; app_name; display; version; gopts; cmds; help] =>
     match dB ansi, dList dec_cstyle set, dOpt dStr app_name, dOpt dStr display, dOpt dStr version, dList dec_hopt gopts,
           dList dec_appcmd cmds, dOpt dStr help with
     | Some ansi, Some set, Some app_name, Some display, Some version, Some gopts, Some cmds, Some help =>
-      page_out W ansi set (fun sty => application_page sty app_name display version gopts cmds help)
+      page_out_x extra W ansi set (fun sty => application_page sty app_name display version gopts cmds help)
     | _, _, _, _, _, _, _, _ => sBad
     end
   (* help <path> against <path> --help: the same help target (C09 help_target), hence the same page *)
@@ -293,3 +302,4 @@ Definition run_C13 (s : sexp) : sexp :=
     end
   | _ => sBad
   end.
+Definition run_C13 : sexp -> sexp := run_C13_x (fun _ _ _ => []).
